@@ -104,12 +104,18 @@ enum class process_info
 static constexpr process_result handled_true_or_deferred =
     process_result::HANDLED_TRUE | process_result::HANDLED_DEFERRED;
 
+// Sequence counter of the event pool (one step per run-to-completion cycle).
+// Wide enough to never wrap in practice: a deferred event remembers the cycle
+// it was deferred in, and a wrapped counter that meets this value again would
+// keep the event from being re-offered in that cycle.
+using event_seq_cnt_t = std::uint64_t;
+
 // Occurrence of an event.
 // Event occurrences are placed in an event pool for later processing.
 class event_occurrence
 {
     using process_fn_t = std::optional<process_result> (*)(
-        event_occurrence&, void* /*sm*/, uint16_t /*seq_cnt*/);
+        event_occurrence&, void* /*sm*/, event_seq_cnt_t /*seq_cnt*/);
 
   public:
     event_occurrence(process_fn_t process_fn, bool is_completion = false)
@@ -121,7 +127,7 @@ class event_occurrence
     // A return value std::nullopt means that the conditions for processing
     // were not given and the event has not been dispatched.
     template <typename StateMachine>
-    std::optional<process_result> try_process(StateMachine& sm, uint16_t seq_cnt)
+    std::optional<process_result> try_process(StateMachine& sm, event_seq_cnt_t seq_cnt)
     {
         return m_process_fn(*this, static_cast<void*>(&sm), seq_cnt);
     }
@@ -158,20 +164,20 @@ class deferred_event : public event_occurrence
 
   public:
     template <typename StateMachine>
-    deferred_event(StateMachine&, const Event& event, uint16_t seq_cnt) noexcept
+    deferred_event(StateMachine&, const Event& event, event_seq_cnt_t seq_cnt) noexcept
         : event_occurrence(&try_process<StateMachine>), m_seq_cnt(seq_cnt), m_event(event)
     {
     }
 
     template <typename StateMachine>
-    static std::optional<process_result> try_process(event_occurrence& self, void* sm, uint16_t seq_cnt)
+    static std::optional<process_result> try_process(event_occurrence& self, void* sm, event_seq_cnt_t seq_cnt)
     {
         return static_cast<deferred_event*>(&self)
             ->try_process_impl<StateMachine>(*reinterpret_cast<StateMachine*>(sm), seq_cnt);
     }
 
     template <typename StateMachine>
-    std::optional<process_result> try_process_impl(StateMachine& sm, uint16_t seq_cnt)
+    std::optional<process_result> try_process_impl(StateMachine& sm, event_seq_cnt_t seq_cnt)
     {
         if ((m_seq_cnt == seq_cnt) || sm.is_event_deferred(m_event))
         {
@@ -184,7 +190,7 @@ class deferred_event : public event_occurrence
     }
 
   private:
-    uint16_t m_seq_cnt;
+    event_seq_cnt_t m_seq_cnt;
     Event m_event;
 };
 
